@@ -150,6 +150,12 @@ macro_rules! range_impl {
                         enc = RangeEncoder::from_raw_parts(bulk, st, sit);
                         out.push(0);
                     }
+                    15 => {
+                        // clear(): "resets the coder to the same state as Coder::new"
+                        enc.clear();
+                        encoded_opt = Some(Vec::new());
+                        out.push(0);
+                    }
                     13 => {
                         // replace the encoder by a copy made with Clone::clone_from into a STALE
                         // scratch encoder (the encoder as it was at the previous op 13, or a fresh
